@@ -3,6 +3,7 @@
 //   DL <t0> | M <dt> <pgn> <src> <dst> <datahex> [<sendok 0/1>] ; ... ; Q ; ...
 //     M : advance the clock by dt ms, then HandleMsg() of the message; sendok=0 makes every SendMsg() of the list fail during this message
 //     Q : dump the list (also implicitly at the end)
+//   DLS <t0>,<t0>,... | <the same operations>   runs the history once per clock origin; the results are joined by " || "
 // t0 is the value of the 32-bit millisecond clock N2kMillis() when the list is constructed (the 64-bit clock runs at 2^32+t0, the
 // device list only reads the 32-bit one).  The node is created once (opened, address 25 claimed) and is only the sink of SendMsg();
 // every case gets a new tN2kDeviceList.  Built with the w64 flag set only: unsigned long is 64 bits in both flag sets and the list
@@ -77,9 +78,11 @@ static void dump(tN2kDeviceList *dl, const std::vector<uint64_t> &names, std::st
 static void run_case(const std::string &line) {
   size_t bar = line.find('|');
   std::vector<std::string> head = split(line.substr(0, bar == std::string::npos ? line.size() : bar));
-  if (head.size() < 2 || head[0] != "DL" || bar == std::string::npos) { printf("badcase\n"); fflush(stdout); return; }
+  if (head.size() < 2 || (head[0] != "DL" && head[0] != "DLS") || bar == std::string::npos) { printf("badcase\n"); fflush(stdout); return; }
   const uint64_t base = 1ULL << 32;
-  uint64_t t0 = tounum(head[1]) & 0xffffffffULL;
+  std::vector<uint64_t> origins;
+  { std::stringstream os(head[1]); std::string x; while (std::getline(os, x, ',')) if (!x.empty()) origins.push_back(tounum(x) & 0xffffffffULL); }
+  if (origins.empty() || (head[0] == "DL" && origins.size() != 1)) { printf("badcase\n"); fflush(stdout); return; }
   // the ops
   struct Op { char k; uint64_t dt; unsigned long pgn; unsigned src, dst; std::vector<uint8_t> data; bool ok; };
   std::vector<Op> ops; std::vector<uint64_t> names; names.push_back(0);
@@ -115,6 +118,9 @@ static void run_case(const std::string &line) {
     n->SetHeartbeatIntervalAndOffset(0, 0);
     n->IsAddressClaimStarted(0);
   }
+  std::string all;
+  for (size_t oi = 0; oi < origins.size(); oi++) {
+  uint64_t t0 = origins[oi];
   verif_now_ms = base + t0;
   tN2kDeviceList *dl = new tN2kDeviceList(n);
 
@@ -144,13 +150,16 @@ static void run_case(const std::string &line) {
       dump(dl, names, out);
     }
   }
-  printf("%s\n", out.c_str());
-  fflush(stdout);
+  if (oi) all += " || ";
+  all += out;
   // release the entries so that long runs do not accumulate memory (the list itself has no destructor for them)
   for (int s = 0; s < N2kMaxBusDevices; s++) if (dl->Sources[s]) { delete dl->Sources[s]; dl->Sources[s] = 0; }
   n->DetachMsgHandler(dl);
   dl->pNMEA2000 = 0;
   delete dl;
+  }
+  printf("%s\n", all.c_str());
+  fflush(stdout);
 }
 
 int main() {
